@@ -90,7 +90,7 @@ def check(ctx):
     n += core.adopt(ctx, c01, lambda o: o["rule"] == "C01.b" and ("schedule_removal_reactions" in o["key"] or "schedule_despawn_reactions" in o["key"]), "C09.c")
     ctx.floor("C09.c", n, 10, "shared poll obligations (C08.e, C01.b): everything detected at a boundary is dispatched at that boundary")
     # ---- C09.d FIFO buffer ----
-    n = core.adopt(ctx, c12, lambda o: o["rule"] in ("C12.b", "C12.c"), "C09.d")
+    n = core.adopt(ctx, c12, lambda o: o["rule"] in ("C12.a", "C12.b", "C12.c"), "C09.d")
     ctx.floor("C09.d", n, 8, "shared C12.b/c obligations")
     # ---- C09.e own commands after cleanup, before return ----
     n = core.adopt(ctx, c04, lambda o: o["rule"] == "C04.a", "C09.e")
